@@ -59,6 +59,8 @@ def delHistory (a : Json) : Json :=
   let n := vs.length
   let U : Nat → Attrs := fun i => vs.getD i default
   let fuel := (getNat? a "fuel").getD 900
+  let gvall : State → (String × Json) := fun st =>
+    ("gvall", jres (fun l => Json.arr (l.map jnat).toArray) (getVariants U st fuel none none [] true))
   let (final, stepsRev) := (getArr a "ops").foldl (fun (acc : State × List Json) j =>
       match getStr? j "t" with
       | some ['d','e','l'] =>
@@ -70,12 +72,12 @@ def delHistory (a : Json) : Json :=
         let r := delitem acc.1 c name
         let out := match r.2 with | .ok () => Json.str "ok" | .error e => Json.str e.name
         let look := jres jnat (getitem U acc.1 c name)
-        (r.1, Json.mkObj (("out", out) :: ("target", tgt) :: ("before", look) :: snapshot U n r.1) :: acc.2)
+        (r.1, Json.mkObj (("out", out) :: ("target", tgt) :: ("before", look) :: gvall r.1 :: snapshot U n r.1) :: acc.2)
       | _ =>
         let o := opOf j
         let r := add U fuel acc.1 o.c o.v o.key
         let out := match r.2 with | .ok () => Json.str "ok" | .error e => Json.str e.name
-        (r.1, Json.mkObj (("out", out) :: snapshot U n r.1) :: acc.2)) (State.empty, [])
+        (r.1, Json.mkObj (("out", out) :: gvall r.1 :: snapshot U n r.1) :: acc.2)) (State.empty, [])
   Json.mkObj [("steps", Json.arr stepsRev.reverse.toArray),
               ("queries", Json.arr ((getArr a "queries").map (query U fuel final)).toArray)]
 
